@@ -268,7 +268,9 @@ func c19Generate(g *srcGen) string {
 	if full {
 		sb.WriteString(c19Doctypes[g.r.Intn(len(c19Doctypes))] + "\n<html><head><title>t</title></head><body>")
 	}
-	texts := []string{"word", "two words", "a &lt; b", "x &amp; y", "{{ a < b }}", "{{ x > 1 && y }}", "{{ name }}", "1 &gt; 0", "&copy; 2024", "{{ a & b }} tail"}
+	texts := []string{"word", "two words", "a &lt; b", "x &amp; y", "{{ a < b }}", "{{ x > 1 && y }}", "{{ name }}", "1 &gt; 0", "&copy; 2024", "{{ a & b }} tail",
+		// braces that do not form a mustache, next to character references: the text after them is still text
+		"{{ open &lt;b&gt; after", "a }} &amp; {{ b", "{ single } &lt; brace", "{{ x }} &lt; {{ unclosed &gt; end", "&amp;#38; twice"}
 	var block func(d int, inline bool) string
 	block = func(d int, inline bool) string {
 		g.n++
